@@ -70,8 +70,11 @@ impl<'de, R: Reader<'de>> Parser<R> {
 impl<'de, R: Reader<'de>> Deserializer<R> {
     #[verifier::external_body]
     pub fn peek_invalid_type_v(&mut self, peek: u8) -> (e: Error)
-        requires old(self).parser.pinv(),
-        ensures final(self).parser.pinv(), final(self).parser.same_doc(&old(self).parser),
+        // Parser::peek_invalid_type, proved in unit `typed_err`: it may step back one byte (onto `[` / `{`), and the
+        // error it returns is positioned inside the input
+        requires old(self).parser.pinv(), old(self).parser.read.idx() >= 1, peek == old(self).parser.read.data()[old(self).parser.read.idx() - 1],
+            old(self).parser.nospace_start == -128 || old(self).parser.nospace_start <= old(self).parser.read.idx() - 1,
+        ensures final(self).parser.pinv(), final(self).parser.same_doc(&old(self).parser), err_ok(e, old(self).parser.read.data()),
     { unimplemented!() }
     // deserialize_seq: unit `typed_de` (started AT the bracket: it skips whitespace and reads the `[` itself)
     #[verifier::external_body]
